@@ -1030,6 +1030,118 @@ Section Cover.
       rewrite <- app_assoc. split; [reflexivity | cbn; lia].
   Qed.
 
+  (* ---- raw events that do not announce the end of the watched root (IN_IGNORED / IN_DELETE_SELF with the root's path) *)
+  Definition good_mask (m : N) : Prop := is_ignored m = false /\ is_delete_self m = false.
+  Definition rsafe (e : raw) : Prop :=
+    (is_ignored (r_mask e) || is_delete_self (r_mask e)) = true -> beqb (r_path e) root = false.
+
+  Lemma good_rsafe e : good_mask (r_mask e) -> rsafe e.
+  Proof. intros [H1 H2] H. rewrite H1, H2 in H. discriminate. Qed.
+
+  Lemma read_batch_inert' t r k l : Forall (inert_ev r) l -> forall acc,
+    exists evs, read_batch C t (r, k, acc) l = Done (r, k, acc ++ evs) /\
+      Forall2 (fun e ev => exists wp, alookup N.eqb (k_wd e) (pfw r) = Some wp /\ ev = raw_ev wp e) l evs.
+  Proof.
+    induction 1 as [|e l (Hi & wp & Hp) Hl IH]; intros acc.
+    - exists []. rewrite app_nil_r. split; [reflexivity | constructor].
+    - cbn [read_batch]. rewrite (read_one_inert _ _ _ _ _ wp Hi Hp).
+      destruct (IH (acc ++ [raw_ev wp e])) as (evs & -> & HF). exists (raw_ev wp e :: evs).
+      rewrite <- app_assoc. split; [reflexivity|]. constructor; [eauto | exact HF].
+  Qed.
+
+  Definition sim_mask (e : raw) : Prop := r_mask e = IN_CREATE \/ r_mask e = N.lor IN_CREATE IN_ISDIR.
+
+  Lemma sim_dirs_app t rt ds : forall r0 k0 acc, exists sim,
+    snd (sim_dirs C r0 k0 t rt ds acc) = acc ++ sim /\ Forall sim_mask sim.
+  Proof.
+    induction ds as [|d ds IH]; intros r0 k0 acc; cbn [sim_dirs].
+    - exists []. now rewrite app_nil_r.
+    - destruct (add_watch C r0 k0 t (join rt d)) as [[[r1 k1] wd]|].
+      + destruct (IH r1 k1 (acc ++ [{| r_wd := wd; r_mask := N.lor IN_CREATE IN_ISDIR; r_cookie := 0; r_name := d; r_path := join rt d |}]))
+          as (sim & E & Hs). eexists. rewrite E, <- app_assoc. split; [reflexivity|]. constructor; [now right | exact Hs].
+      + apply IH.
+  Qed.
+
+  Lemma sim_files_app r rt fls : forall acc acc', sim_files C r rt fls acc = Done acc' ->
+    exists sim, acc' = acc ++ sim /\ Forall sim_mask sim.
+  Proof.
+    induction fls as [|f fls IH]; intros acc acc' H; cbn [sim_files] in H.
+    - injection H as <-. exists []. now rewrite app_nil_r.
+    - destruct (alookup beqb (dirname (join rt f)) (wfp r)) as [wd|].
+      + destruct (IH _ _ H) as (sim & -> & Hs). eexists. rewrite <- app_assoc. split; [reflexivity|].
+        constructor; [now left | exact Hs].
+      + destruct (c_fix_simulate C); [now apply IH | discriminate].
+  Qed.
+
+  Lemma simulate_app t wk : forall r k acc r' k' acc', simulate C r k t wk acc = Done (r', k', acc') ->
+    exists sim, acc' = acc ++ sim /\ Forall sim_mask sim.
+  Proof.
+    induction wk as [|[[rt ds] fls] wk IH]; intros r k acc r' k' acc' H; cbn [simulate] in H.
+    - injection H as <- <- <-. exists []. now rewrite app_nil_r.
+    - destruct (sim_dirs_app t rt ds r k acc) as (s1 & E1 & H1).
+      destruct (sim_dirs C r k t rt ds acc) as [[r1 k1] acc1]. cbn [snd] in E1. subst acc1.
+      destruct (sim_files C r1 rt fls (acc ++ s1)) as [acc2|] eqn:E2; [|discriminate].
+      destruct (sim_files_app _ _ _ _ _ E2) as (s2 & -> & H2).
+      destruct (IH _ _ _ _ _ _ H) as (s3 & -> & H3). exists (s1 ++ s2 ++ s3). rewrite <- !app_assoc.
+      split; [reflexivity|]. apply Forall_app. split; [exact H1|]. apply Forall_app. now split.
+  Qed.
+
+  Lemma sim_mask_rsafe e : sim_mask e -> rsafe e.
+  Proof. intros [H|H]; apply good_rsafe; rewrite H; split; reflexivity. Qed.
+
+  (* one event: the output grows by the event itself (same mask) and simulated creations *)
+  Lemma read_one_shape t r k acc e r' k' acc' : read_one C t (r, k, acc) e = Done (r', k', acc') ->
+    exists ev sim, acc' = acc ++ ev :: sim /\ r_mask ev = k_mask e /\ Forall sim_mask sim.
+  Proof.
+    unfold read_one. destruct (alookup N.eqb (k_wd e) (pfw r)) as [wp|]; [|discriminate].
+    set (X := if is_moved_from (k_mask e) then _ else _).
+    assert (HX : r_mask (snd X) = k_mask e).
+    { unfold X. destruct (is_moved_from (k_mask e)); [reflexivity|]. destruct (is_moved_to (k_mask e)); [|reflexivity].
+      destruct (alookup N.eqb (k_cookie e) (mvf r)) as [ms|].
+      - destruct (alookup beqb ms (wfp r)); [reflexivity|].
+        destruct (c_fix_movein C && c_recursive C && is_directory (k_mask e) && fisdir _ t); [|reflexivity].
+        now destruct (add_dirs C r k t _).
+      - destruct (c_fix_movein C && c_recursive C && is_directory (k_mask e) && fisdir _ t); [|reflexivity].
+        now destruct (add_dirs C r k t _). }
+    destruct X as [[r1 k1] ev1]. cbn [snd] in HX.
+    set (Y := if is_ignored (k_mask e) then _ else _). destruct Y as [r2|]; [|discriminate].
+    destruct (c_recursive C && is_directory (k_mask e) && is_create (k_mask e)).
+    - destruct (add_watch C r2 k1 t (r_path ev1)) as [[[r3 k3] wd]|].
+      + intros H. destruct (simulate_app _ _ _ _ _ _ _ _ H) as (sim & -> & Hs).
+        exists ev1, sim. rewrite <- app_assoc. auto.
+      + intros H. injection H as <- <- <-. exists ev1, []. repeat split; auto.
+    - intros H. injection H as <- <- <-. exists ev1, []. repeat split; auto.
+  Qed.
+
+  Lemma read_batch_good t b : Forall (fun e => good_mask (k_mask e)) b ->
+    forall r k acc r' k' acc', Forall rsafe acc -> read_batch C t (r, k, acc) b = Done (r', k', acc') -> Forall rsafe acc'.
+  Proof.
+    induction 1 as [|e b He Hb IH]; intros r k acc r' k' acc' Ha H; cbn [read_batch] in H.
+    - now injection H as <- <- <-.
+    - destruct (read_one C t (r, k, acc) e) as [[[r1 k1] acc1]|] eqn:E1; [|discriminate].
+      destruct (read_one_shape _ _ _ _ _ _ _ _ E1) as (ev & sim & -> & Hm & Hs).
+      apply (IH _ _ _ _ _ _ ) in H; [exact H|]. apply Forall_app. split; [exact Ha|].
+      constructor; [apply good_rsafe; now rewrite Hm|]. eapply Forall_impl; [|exact Hs]. apply sim_mask_rsafe.
+  Qed.
+
+  Lemma inert_raws_good r l evs :
+    Forall2 (fun e ev => exists wp, alookup N.eqb (k_wd e) (pfw r) = Some wp /\ ev = raw_ev wp e) l evs ->
+    Forall (fun e => good_mask (k_mask e)) l -> Forall rsafe evs.
+  Proof.
+    induction 1 as [|e ev l evs (wp & _ & ->) HF IH]; intros Hg; [constructor|]. inversion Hg; subst.
+    constructor; [now apply good_rsafe | auto].
+  Qed.
+
+  Lemma inert_raws_path r l evs wd p :
+    Forall2 (fun e ev => exists wp, alookup N.eqb (k_wd e) (pfw r) = Some wp /\ ev = raw_ev wp e) l evs ->
+    Forall (fun e => k_wd e = wd /\ k_name e = []) l -> alookup N.eqb wd (pfw r) = Some p -> p <> root -> Forall rsafe evs.
+  Proof.
+    intros HF Hl Hp Hne. induction HF as [|e ev l evs (wp & Hwp & ->) HF IH]; [constructor|]. inversion Hl as [|? ? [E1 E2] Hl']; subst.
+    constructor; [|auto]. intros _. unfold raw_ev, src_path_of. cbn [r_path]. rewrite E2.
+    rewrite Hp in Hwp. injection Hwp as <-. now apply beqb_neq.
+  Qed.
+
+
   (* ------------------------------------------------------------------ the kernel side *)
   Definition kset_queue (k : kst) (q : list kraw) : kst :=
     {| k_watches := k_watches k; k_next_wd := k_next_wd k; k_queue := q; k_next_cookie := k_next_cookie k |}.
@@ -1109,6 +1221,42 @@ Section Cover.
     - intros kw Hk. destruct (wi_exact _ _ _ I kw Hk) as (e & He & De & Se & Ie & R). exists e.
       split; [apply Ht; eauto | auto].
     - intros c x Hx. apply (wi_mvf _ _ _ I) in Hx. lia.
+  Qed.
+
+  (* the kernel: no IN_IGNORED / IN_DELETE_SELF unless a watched directory disappears *)
+  Lemma kernel_good k t o : Forall (fun e => good_mask (k_mask e)) (k_queue k) ->
+    match o with
+    | Rmdir p => watch_of_ino k (ino_of t p) = None
+    | Rename p q => fisdir q t = false \/ watch_of_ino k (ino_of t q) = None
+    | _ => True
+    end -> Forall (fun e => good_mask (k_mask e)) (k_queue (kernel_op k t o)).
+  Proof.
+    intros Hq Hno.
+    assert (G : forall (k0 : kst) ino bit (isd : bool) c name, Forall (fun e => good_mask (k_mask e)) (k_queue k0) ->
+              good_mask (if isd then N.lor bit IN_ISDIR else bit) ->
+              Forall (fun e => good_mask (k_mask e)) (k_queue (knotify k0 ino bit isd c name))).
+    { intros k0 ino bit isd c name H0 Hg. apply (knotify_inv (fun e => good_mask (k_mask e))); [exact H0|]. intros kw _. exact Hg. }
+    destruct o as [p|p|p|p|p|p|p q]; cbn [kernel_op].
+    - repeat apply G; try assumption; split; reflexivity.
+    - repeat apply G; try assumption; split; reflexivity.
+    - destruct (fisdir p t); repeat apply G; try assumption; split; reflexivity.
+    - apply G; [assumption | split; reflexivity].
+    - apply G; [assumption | split; reflexivity].
+    - unfold kgone. rewrite Hno. apply G; [assumption | split; reflexivity].
+    - set (k2 := knotify (knotify _ _ _ _ _ _) _ _ _ _ _).
+      assert (H2 : Forall (fun e => good_mask (k_mask e)) (k_queue k2)).
+      { unfold k2. apply G; [apply G; [exact Hq|]|]; destruct (fisdir p t); split; reflexivity. }
+      destruct Hno as [-> | Hno]; [exact H2|]. destruct (fisdir q t); [|exact H2].
+      unfold kgone. assert (E : watch_of_ino k2 (ino_of t q) = watch_of_ino k (ino_of t q)).
+      { apply watch_of_ino_ext. unfold k2.
+        destruct (knotify_inv (fun _ => True) (knotify {| k_watches := k_watches k; k_next_wd := k_next_wd k; k_queue := k_queue k;
+                     k_next_cookie := k_next_cookie k + 1 |} (ino_of t (dirname p)) IN_MOVED_FROM (fisdir p t) (k_next_cookie k) (basename p))
+                   (ino_of t (dirname q)) IN_MOVED_TO (fisdir p t) (k_next_cookie k) (basename q)) as (A & _); [apply Forall_forall; auto | auto|].
+        rewrite A.
+        destruct (knotify_inv (fun _ => True) {| k_watches := k_watches k; k_next_wd := k_next_wd k; k_queue := k_queue k;
+                     k_next_cookie := k_next_cookie k + 1 |} (ino_of t (dirname p)) IN_MOVED_FROM (fisdir p t) (k_next_cookie k) (basename p))
+          as (B & _); [apply Forall_forall; auto | auto|]. now rewrite B. }
+      now rewrite E, Hno.
   Qed.
 
   Lemma WInv_ext t t' k k' r : WInv t k r ->
@@ -1461,7 +1609,8 @@ Section Cover.
 
   Theorem step_rmdir w k r p w' : RSync w k r -> npath p -> p <> root -> apply_op w (Rmdir p) = Some w' ->
     let k1 := kernel_op k (w_fs w) (Rmdir p) in
-    exists r' k' evs, read_batch C (w_fs w') (r, drainq k1, []) (k_queue k1) = Done (r', k', evs) /\ RSync w' k' r'.
+    exists r' k' evs, read_batch C (w_fs w') (r, drainq k1, []) (k_queue k1) = Done (r', k', evs) /\ RSync w' k' r' /\
+      Forall rsafe evs.
   Proof.
     intros S Np Hpr Ha k1. destruct S as [W Hr I Cv Hq].
     assert (W' : wf_fs w') by exact (wf_apply_op w (Rmdir p) w' W Np Ha).
@@ -1491,25 +1640,32 @@ Section Cover.
                  k_watches (knotify k3 di IN_DELETE true 0 n) = k_watches k3 /\
                  k_next_wd (knotify k3 di IN_DELETE true 0 n) = k_next_wd k /\
                  k_next_cookie (knotify k3 di IN_DELETE true 0 n) = k_next_cookie k /\
-                 Forall (inert_ev (dropped r p (kw_wd kw))) post).
+                 Forall (inert_ev (dropped r p (kw_wd kw))) post /\ Forall (fun e => good_mask (k_mask e)) post).
       { destruct (knotify_cases k3 di IN_DELETE true 0 n) as [->|(kw' & Hw' & _ & ->)].
-        - exists []. now repeat split.
+        - exists []. repeat split; constructor.
         - exists [kev kw' IN_DELETE true 0 n]. cbn [kset_queue k_queue k_watches k_next_wd k_next_cookie k3].
-          rewrite kpush_snoc by (vm_compute; discriminate). repeat split.
+          rewrite kpush_snoc by (vm_compute; discriminate). repeat split; [|constructor; [split; reflexivity | constructor]].
           constructor; [|constructor]. split; [inert_mask|]. cbn [kev k_wd dropped pfw].
           apply watch_of_ino_some in Hw' as [Hk' _]. cbn [k3 k_watches] in Hk'.
           apply filter_In in Hk' as [Hk' Hne]. apply negb_true_iff, N.eqb_neq in Hne.
           rewrite prem_neq by assumption. destruct (wi_exact _ _ _ I kw' Hk') as (e & _ & _ & _ & _ & Pe & _). eauto. }
-      destruct Hpost as (post & Eq & Ew3 & En3 & Ec3 & Hpost). rewrite Eq.
+      destruct Hpost as (post & Eq & Ew3 & En3 & Ec3 & Hpost & Hpostg). rewrite Eq.
       rewrite read_batch_app.
-      destruct (read_batch_inert (fremove p (w_fs w)) r (drainq (knotify k3 di IN_DELETE true 0 n)) pre Hpre_inert [])
-        as (evs1 & -> & _).
+      destruct (read_batch_inert' (fremove p (w_fs w)) r (drainq (knotify k3 di IN_DELETE true 0 n)) pre Hpre_inert [])
+        as (evs1 & -> & HF1).
       cbn [app read_batch]. unfold ign_ev. rewrite (read_one_ignored _ _ _ _ _ p Cp Cf).
       fold (dropped r p (kw_wd kw)).
-      destruct (read_batch_inert (fremove p (w_fs w)) _ (drainq (knotify k3 di IN_DELETE true 0 n)) post Hpost
+      destruct (read_batch_inert' (fremove p (w_fs w)) _ (drainq (knotify k3 di IN_DELETE true 0 n)) post Hpost
                   (evs1 ++ [{| r_wd := kw_wd kw; r_mask := IN_IGNORED; r_cookie := 0; r_name := []; r_path := p |}]))
-        as (evs2 & -> & _).
+        as (evs2 & -> & HF2).
       eexists _, _, _. split; [reflexivity|].
+      assert (Hsafe : Forall rsafe (([] ++ evs1 ++ [{| r_wd := kw_wd kw; r_mask := IN_IGNORED; r_cookie := 0; r_name := []; r_path := p |}]) ++ evs2)).
+      { cbn [app]. apply Forall_app. split; [apply Forall_app; split|].
+        - apply (inert_raws_path r pre evs1 (kw_wd kw) p HF1); try assumption.
+          eapply Forall_impl; [|exact Hpre]. intros a (A1 & A2 & _). now split.
+        - constructor; [|constructor]. intros _. cbn [r_path]. now apply beqb_neq.
+        - now apply (inert_raws_good _ post evs2 HF2). }
+      split; [|exact Hsafe].
       destruct (dropped_sync w (fremove p (w_fs w)) k r ep kw (drainq (knotify k3 di IN_DELETE true 0 n)) W I Cv Hep)
         as [I' Cv']; try assumption.
       + unfold cov. rewrite Eep. now split.
@@ -1518,8 +1674,11 @@ Section Cover.
     - cbn [kgone]. unfold kgone. rewrite Ew.
       destruct (knotify_inert (w_fs w) k r k di IN_DELETE true 0 n I eq_refl) as (A1 & B1 & C1 & D1);
         [rewrite Hq; constructor | inert_mask|].
-      destruct (read_batch_inert (fremove p (w_fs w)) r (drainq (knotify k di IN_DELETE true 0 n)) _ D1 []) as (evs & -> & _).
-      eexists _, _, _. split; [reflexivity|]. constructor; try assumption; try reflexivity.
+      destruct (read_batch_inert' (fremove p (w_fs w)) r (drainq (knotify k di IN_DELETE true 0 n)) _ D1 []) as (evs & -> & HF).
+      eexists _, _, _. split; [reflexivity|]. split.
+      2:{ cbn [app]. apply (inert_raws_good r _ evs HF).
+          apply (knotify_inv (fun e => good_mask (k_mask e))); [rewrite Hq; constructor | intros; split; reflexivity]. }
+      constructor; try assumption; try reflexivity.
       + apply (WInv_ext' (w_fs w) _ k); try assumption; cbn; try assumption; [|rewrite C1; lia].
         intros e He De (kw & Hk & Ei). apply Ht2; try assumption. intros ->.
         rewrite (watch_of_ino_in k (f_ino ep) kw) in Ew; [discriminate | apply I | assumption | assumption].
@@ -2034,7 +2193,8 @@ Section Cover.
          alookup N.eqb (kw_wd kw) (pfw r'') = Some (f_path e)) /\
       (forall y wd, alookup beqb y (wfp r'') = Some wd ->
          exists e kw, In e (w_fs w) /\ f_dir e = true /\ scope (f_path e) /\ f_path e <> q /\ cov k r e kw /\
-                      kw_wd kw = wd /\ y = rk p q (f_path e)).
+                      kw_wd kw = wd /\ y = rk p q (f_path e)) /\
+      Forall rsafe evs.
   Proof.
     intros W Hr I Cv Np Nq Hrec Elp Dep Sp Hpr Sq Hqr Hne Hupq Hbelow Edq.
     destruct (flookup_some _ _ _ Elp) as [Hep Eep].
@@ -2112,7 +2272,8 @@ Section Cover.
         + rewrite rk_other by assumption. split.
           * destruct (j2 _ _ _ _ J _ _ Hb) as [Hs|(Hu & _)]; [exact Hs | congruence].
           * apply Pf; try assumption. split; [|split]; assumption. }
-    split; [rewrite (j5 _ _ _ _ J); reflexivity|]. split; [exact F|]. split; [exact Pf|].
+    split; [rewrite (j5 _ _ _ _ J); reflexivity|]. split; [exact F|]. split; [exact Pf|]. split.
+    2:{ repeat constructor; apply good_rsafe; split; reflexivity. }
     intros y wd Hy. destruct (j1 _ _ _ _ J y wd Hy) as (x0 & H0 & Hy0).
     destruct (B' x0 wd H0) as [[-> ->]|(Nq0 & Np0 & H0')].
     - assert (y = q) by (destruct Hy0 as [->|[Hu _]]; [reflexivity | congruence]). subst y.
@@ -2146,7 +2307,8 @@ Section Cover.
     flookup p (w_fs w) = Some ep -> f_dir ep = true -> scope p -> p <> root -> scope q -> q <> root ->
     flookup q (w_fs w) = Some v -> f_dir v = true ->
     let k1 := kernel_op k (w_fs w) (Rename p q) in
-    exists r' k' evs, read_batch C (w_fs w') (r, drainq k1, []) (k_queue k1) = Done (r', k', evs) /\ RSync w' k' r'.
+    exists r' k' evs, read_batch C (w_fs w') (r, drainq k1, []) (k_queue k1) = Done (r', k', evs) /\ RSync w' k' r' /\
+      Forall rsafe evs.
   Proof.
     intros S Np Nq Hrec Hmf Hmt Ha Elp Dep Sp Hpr Sq Hqr Elq Dv k1. destruct S as [W Hr I Cv Hq].
     assert (W' : wf_fs w') by exact (wf_apply_op w (Rename p q) w' W (conj Np Nq) Ha).
@@ -2163,7 +2325,7 @@ Section Cover.
     set (kf := {| k_watches := filter (fun x => negb (N.eqb (kw_wd x) (kw_wd kwv))) (k_watches k); k_next_wd := k_next_wd k;
                   k_queue := []; k_next_cookie := k_next_cookie k + 1 |}).
     destruct (rename_dir_rekey w k r p q ep t' kf W Hr I Cv Np Nq Hrec Elp Dep Sp Hpr Sq Hqr Hne Hupq Hbelow Edq)
-      as (kwp & kwq & kwe & r'' & evs0 & Cwp & Cwq & Cep & Hrd1 & Hmv & F & Pf & T).
+      as (kwp & kwq & kwe & r'' & evs0 & Cwp & Cwq & Cep & Hrd1 & Hmv & F & Pf & T & Hsafe0).
     (* the kernel *)
     subst k1. cbn [kernel_op w_fs]. rewrite Fq.
     set (k2 := knotify (knotify _ _ _ _ _ _) _ _ _ _ _).
@@ -2194,10 +2356,14 @@ Section Cover.
     assert (Hpre_inert : Forall (inert_ev r'') pre).
     { eapply Forall_impl; [|exact Hpre]. intros a (A1 & A2 & A3). split; [now apply self_mask_inert|]. rewrite A1. eauto. }
     rewrite read_batch_app.
-    destruct (read_batch_inert t' r'' kf pre Hpre_inert evs0) as (evs1 & -> & _).
+    destruct (read_batch_inert' t' r'' kf pre Hpre_inert evs0) as (evs1 & -> & HF1).
     cbn [read_batch]. unfold ign_ev. rewrite (read_one_ignored_other _ _ _ _ _ q (kw_wd kwe) Hpq'' Hwq'' Hne_wd).
     set (rf := {| wfp := wfp r''; pfw := aremove N.eqb (kw_wd kwv) (pfw r''); mvf := mvf r''; calls := calls r'' |}).
-    eexists _, _, _. split; [reflexivity|].
+    eexists _, _, _. split; [reflexivity|]. split.
+    2:{ apply Forall_app. split; [apply Forall_app; split; [exact Hsafe0|]|].
+        - apply (inert_raws_path r'' pre evs1 (kw_wd kwv) q HF1); try assumption.
+          eapply Forall_impl; [|exact Hpre]. intros a (A1 & A2 & _). now split.
+        - constructor; [|constructor]. intros _. cbn [r_path]. now apply beqb_neq. }
     (* entries *)
     assert (Hin' : forall e, In e (w_fs w) -> f_path e <> q -> In (ren p q e) t').
     { intros e He Hn. unfold t'. rewrite frename_map. apply in_map. apply fremove_in. now split. }
@@ -2566,23 +2732,55 @@ Section Cover.
       p <> root -> q <> root -> under p root = false -> (c_recursive C = false \/ (~ scope p /\ ~ scope q)) ->
       covered_op w (Rename p q).              (* directory, non-recursive watch or entirely outside the tree *)
 
+  Lemma safe_generic w k r o w' r' k' evs : k_queue k = [] ->
+    match o with
+    | Rmdir p => watch_of_ino k (ino_of (w_fs w) p) = None
+    | Rename p q => fisdir q (w_fs w) = false \/ watch_of_ino k (ino_of (w_fs w) q) = None
+    | _ => True
+    end ->
+    read_batch C (w_fs w') (r, drainq (kernel_op k (w_fs w) o), []) (k_queue (kernel_op k (w_fs w) o)) = Done (r', k', evs) ->
+    Forall rsafe evs.
+  Proof.
+    intros Hq Hno H. eapply read_batch_good; [|constructor|exact H]. apply kernel_good; [rewrite Hq; constructor | exact Hno].
+  Qed.
+
+  Theorem cover_step_safe w k r o w' : mask_ok -> RSync w k r -> covered_op w o -> apply_op w o = Some w' ->
+    let k1 := kernel_op k (w_fs w) o in
+    exists r' k' evs, read_batch C (w_fs w') (r, drainq k1, []) (k_queue k1) = Done (r', k', evs) /\ RSync w' k' r' /\
+      Forall rsafe evs.
+  Proof.
+    intros (M1 & M2 & M3) S Ho Ha k1. assert (Hq := rs_queue _ _ _ S). assert (W := rs_wf _ _ _ S).
+    destruct Ho as [o Hqo Hn|p Hn|p Hn Hr|p q ep Np Nq El De Ed|p q ep Np Nq Hrec El De Sp Hpr Sq Elq
+                    |p q ep Np Nq Hrec Hfix El De Sp Hpr Sq Elq|p q ep v Np Nq Hrec El De Sp Hpr Sq Hqr Elq Dv
+                    |p q ep Np Nq El De Hpr Hqr Hupr Hpl].
+    - destruct (step_quiet w k r o w' S Hn Hqo Ha) as (evs & H1 & _ & H2). eexists _, _, _. split; [exact H1|]. split; [exact H2|].
+      eapply (safe_generic w k r o w' _ _ _ Hq); [|exact H1]. destruct o; try contradiction; exact I.
+    - destruct (step_mkdir w k r p w' S Hn Ha M1) as (r' & k' & evs & H1 & H2 & _). eexists _, _, _. split; [exact H1|]. split; [exact H2|].
+      eapply (safe_generic w k r (Mkdir p) w' _ _ _ Hq); [exact I | exact H1].
+    - apply step_rmdir; assumption.
+    - destruct (step_rename_file w k r p q w' ep S Np Nq M2 M3 Ha El De Ed) as (r' & k' & evs & H1 & H2 & _).
+      eexists _, _, _. split; [exact H1|]. split; [exact H2|]. eapply (safe_generic w k r (Rename p q) w' _ _ _ Hq); [|exact H1].
+      left. destruct (rename_inv w p q w' W Np Nq Ha) as (ep' & t1 & Elp & _ & _ & _ & _ & _ & Hq1).
+      assert (ep' = ep) by congruence. subst ep'. unfold fisdir.
+      destruct Hq1 as [[-> _]|(v & -> & _ & [[_ Hv]|(Hd & _)])]; [reflexivity | exact Hv | congruence].
+    - destruct (step_rename_dir_inside w k r p q w' ep S Np Nq Hrec M2 M3 Ha El De Sp Hpr Sq Elq) as (r' & k' & evs & H1 & H2).
+      eexists _, _, _. split; [exact H1|]. split; [exact H2|]. eapply (safe_generic w k r (Rename p q) w' _ _ _ Hq); [|exact H1].
+      left. unfold fisdir. now rewrite Elq.
+    - destruct (step_rename_dir_in w k r p q w' ep S Np Nq Hrec Hfix M2 M3 Ha El De Sp Hpr Sq Elq) as (r' & k' & evs & H1 & H2).
+      eexists _, _, _. split; [exact H1|]. split; [exact H2|]. eapply (safe_generic w k r (Rename p q) w' _ _ _ Hq); [|exact H1].
+      left. unfold fisdir. now rewrite Elq.
+    - eapply step_rename_dir_over; eassumption.
+    - destruct (step_rename_dir_plain w k r p q w' ep S Np Nq M2 M3 Ha El De Hpr Hqr Hupr Hpl) as (r' & k' & evs & H1 & H2 & _).
+      eexists _, _, _. split; [exact H1|]. split; [exact H2|]. eapply (safe_generic w k r (Rename p q) w' _ _ _ Hq); [|exact H1].
+      right. apply (ino_unwatched w k r q W (rs_inv _ _ _ S)).
+      destruct Hpl as [Hrec|[_ Hs]]; [|exact Hs]. unfold scope. now rewrite Hrec.
+  Qed.
+
   Theorem cover_step w k r o w' : mask_ok -> RSync w k r -> covered_op w o -> apply_op w o = Some w' ->
     let k1 := kernel_op k (w_fs w) o in
     exists r' k' evs, read_batch C (w_fs w') (r, drainq k1, []) (k_queue k1) = Done (r', k', evs) /\ RSync w' k' r'.
   Proof.
-    intros (M1 & M2 & M3) S Ho Ha k1.
-    destruct Ho as [o Hq Hn|p Hn|p Hn Hr|p q ep Np Nq El De Ed|p q ep Np Nq Hrec El De Sp Hpr Sq Elq
-                    |p q ep Np Nq Hrec Hfix El De Sp Hpr Sq Elq|p q ep v Np Nq Hrec El De Sp Hpr Sq Hqr Elq Dv
-                    |p q ep Np Nq El De Hpr Hqr Hupr Hpl].
-    7:{ eapply step_rename_dir_over; eassumption. }
-    - destruct (step_quiet w k r o w' S Hn Hq Ha) as (evs & H1 & _ & H2). eauto.
-    - destruct (step_mkdir w k r p w' S Hn Ha M1) as (r' & k' & evs & H1 & H2 & _). eauto.
-    - apply step_rmdir; assumption.
-    - destruct (step_rename_file w k r p q w' ep S Np Nq M2 M3 Ha El De Ed) as (r' & k' & evs & H1 & H2 & _). eauto.
-    - eapply step_rename_dir_inside; eassumption.
-    - eapply step_rename_dir_in; eassumption.
-    - destruct (step_rename_dir_plain w k r p q w' ep S Np Nq M2 M3 Ha El De Hpr Hqr Hupr Hpl) as (r' & k' & evs & H1 & H2 & _).
-      eauto.
+    intros M S Ho Ha k1. destruct (cover_step_safe w k r o w' M S Ho Ha) as (r' & k' & evs & H1 & H2 & _). eauto.
   Qed.
 
   (* op; read-all; op; read-all; ...   (None = the reader crashed) *)
